@@ -8,7 +8,7 @@ from core import hx, exc_name
 from gen import cut
 
 ID = 'C02'
-MODULES = ['Httoop.Props.C02', 'Httoop.Props.C02Pipeline', 'Httoop.Props.C01Pipeline']
+MODULES = ['Httoop.Props.C02', 'Httoop.Props.C02Pipeline', 'Httoop.Props.C01Pipeline', 'Httoop.Props.C01Mixed']
 THEOREMS = [
 	'Httoop.Parser.splitOnce_crlf',
 	'Httoop.Parser.dechunk_chunk',
@@ -30,6 +30,8 @@ THEOREMS = [
 	'Httoop.Parser.c02_pipeline_witness_mixed',
 	'Httoop.Parser.feedAll_prefix',
 	'Httoop.Parser.fragmentation_independent',
+	'Httoop.Parser.Mixed.feedAll_prefix',
+	'Httoop.Parser.Mixed.fragmentation_independent',
 ]
 TRUSTED = [
 	'harness/wire.py is an independent RFC 7230 writer (it does not use httoop); the oracle compares deliveries with the writer\'s own records',
@@ -230,5 +232,5 @@ LEVEL_TEXT = ('Theorems for ALL payloads, chunk partitions, extensions and trail
 	'Together with C01\'s fragmentation theorems this gives prefix-exact delivery for the body layer. WHOLE PIPELINES are a theorem as well (pipeline_mixed, feed_pipeline): any number of messages, each a start line, a header block and a body framed by Content-Length or in chunks, '
 	'written one after the other, go through the outer loop of the state machine (start-line phase, header phase with the first CRLFCRLF found by splitOnce_first, body, delivery hooks) and come out as exactly those messages, in order, nothing retained, on both sides; '
 	'what a writer must get right for one message is the predicate Good / GoodC (the start line yields a record, the block parses, the hooks at the end of the header section accept, the length field reads back as the body length or the transfer coding is chunked), '
-	'computable (goodB, goodCB) and evaluated by the kernel for concrete request and response pipelines (c02_pipeline_witness_*). THE PREFIX CLAUSE is feedAll_prefix (Props/C01Pipeline.lean): for Content-Length framed pipelines cut into calls in any way, after any prefix of the stream exactly the messages wholly contained in it have been delivered and the state machine holds the rest (it is inside the start line, the header section or the body of the next message, with precisely the octets still to come). The independent writer\'s records are the oracle.')
+	'computable (goodB, goodCB) and evaluated by the kernel for concrete request and response pipelines (c02_pipeline_witness_*). THE PREFIX CLAUSE is feedAll_prefix (Props/C01Pipeline.lean; with chunked messages mixed in: Props/C01Mixed.lean): for pipelines cut into calls in any way, after any prefix of the stream exactly the messages wholly contained in it have been delivered and the state machine holds the rest (it is inside the start line, the header section or the body of the next message, with precisely the octets still to come). The independent writer\'s records are the oracle.')
 LEVEL_NOTE = 'Trusted: Lean kernel; the RFC 7230 writer transcription (Lean: Spec in Props/C02, Python: harness/wire.py); parser model tested against the code.'
